@@ -391,6 +391,8 @@ def check_tapes(run, f, cfg):
                    "mark, every other token is written unchanged%s" % (rows, maxlen, NVALS, "" if not bad else " - EXCEPT " + "; ".join(bad[:4])),
                    sp=arm["sp"], cfg=cfg, detail=bad[:12] or None)
             run.floor("C11.R1", "custom-tape-rows", rows, 300, cfg)
+            from .. import scope
+            scope.check_bound(run, "C11.R1", "custom:scope", f, [name], maxlen, cfg, "the CustomWithExpr arm (token tapes of length <= %d)" % maxlen)
         else:
             run.notes.append("C11 CustomWithExpr arm outside the interpreter's fragment (%s): decided by the path rules" % outside)
     # (2) inject_parameters
@@ -429,6 +431,8 @@ def check_tapes(run, f, cfg):
                    "form of the value it designates, every other token is copied%s" % (rows, maxlen, NVALS, "" if not bad else " - EXCEPT " + "; ".join(bad[:4])),
                    sp=ifn["sp"], cfg=cfg, detail=bad[:12] or None)
             run.floor("C11.R2", "inject-tape-rows", rows, 300, cfg)
+            from .. import scope
+            scope.check_bound(run, "C11.R2", "inject:scope", f, [iname], maxlen, cfg, "inject_parameters (token tapes of length <= %d)" % maxlen)
         else:
             run.notes.append("C11 inject_parameters outside the interpreter's fragment (%s): decided by the path rules" % outside)
     return decided
